@@ -110,6 +110,13 @@ func (in *Interp) apply(fv *FuncV, args []Value, at token.Pos) []Value {
 		return fr.results()
 	}
 	decl := in.P.Decl(fv.Obj)
+	if decl == nil && fv.Obj != nil && fv.Obj.Origin() != fv.Obj && in.P.Decl(fv.Obj.Origin()) != nil {
+		// a method of an instantiated generic type, or an instantiated generic
+		// function: the declaration is the origin's (values carry no types, so
+		// the body runs as written)
+		fv = &FuncV{Obj: fv.Obj.Origin(), Recv: fv.Recv, Has: fv.Has, Lit: fv.Lit, Env: fv.Env}
+		decl = in.P.Decl(fv.Obj)
+	}
 	if decl == nil && fv.Has {
 		// a method of an interface (or of a type parameter's constraint): the
 		// receiver's dynamic type decides which declaration runs
@@ -1128,6 +1135,11 @@ func (in *Interp) eval(fr *frame, e ast.Expr) Value {
 		}
 		x := in.eval1(fr, e.X)
 		switch xv := x.(type) {
+		case *FuncV:
+			// explicit instantiation of a generic function: firstDuplicate[Field, string]
+			if tv, ok := info.Types[e.Index]; ok && tv.IsType() {
+				return xv
+			}
 		case string:
 			i := in.evalInt(fr, e.Index)
 			if i < 0 || int(i) >= len(xv) {
@@ -1575,6 +1587,34 @@ func (in *Interp) builtin(fr *frame, name string, e *ast.CallExpr) Value {
 		m := in.eval1(fr, e.Args[0])
 		if mv, ok := m.(*MapV); ok {
 			delete(mv.M, mapKey(in.eval1(fr, e.Args[1])))
+		}
+		return Tuple{}
+	case "min", "max":
+		best := in.eval1(fr, e.Args[0])
+		for _, a := range e.Args[1:] {
+			v := in.eval1(fr, a)
+			c := compareValues(v, best, in, e.Pos())
+			if (name == "min" && c < 0) || (name == "max" && c > 0) {
+				best = v
+			}
+		}
+		return best
+	case "clear":
+		switch x := in.eval1(fr, e.Args[0]).(type) {
+		case *MapV:
+			for k := range x.M {
+				delete(x.M, k)
+			}
+		case *SliceV:
+			if sl, ok := info.TypeOf(e.Args[0]).Underlying().(*types.Slice); ok {
+				for _, c := range x.E {
+					c.V = zero(sl.Elem())
+				}
+			}
+		case []byte:
+			for i := range x {
+				x[i] = 0
+			}
 		}
 		return Tuple{}
 	case "panic":
